@@ -2,6 +2,7 @@
 import itertools
 from datetime import datetime, timedelta
 
+from .. import seams
 from .scenario import Scenario, MON, DAY, CAL_MENU, NEVER_MENU
 
 H9 = timedelta(hours=9)
@@ -576,6 +577,69 @@ def L1i(tier, scheds=('fwd', 'bwd')):
     so every oracle reads the input as 'project anchored at the clock value'."""
     for sc in L1(tier, scheds, nmax=3, anchors=[MON, MON + H9]):
         yield Scenario(sc.sched, sc.balance, sc.anchor, sc.tasks, sc.links, cals=sc.cals, dflt=sc.dflt, clock=sc.anchor, layer='L1i')
+
+
+LX_STRUCTS = [
+    ((None,), ()),                 # single leaf
+    ((None, None), ()),            # two roots
+    ((None, None), ((0, 1),)),     # chain of two
+    ((None, None), ((1, 0),)),     # chain of two, the waiting task listed first
+    ((None, 0, 0), ()),            # parent with two children
+    ((None, 0, 0), ((2, 1),)),     # ... the first child waits for the second
+    ((None, 0, None), ((2, 1),)),  # a child depending on an outside root listed later
+    ((None, 0, None), ((2, 0),)),  # a summary depending on an outside root listed later
+    ((None, 0, None), ((0, 2),)),  # an outside root depending on a summary
+]
+
+
+def LX(tier, scheds=('fwd', 'bwd')):
+    """Cross layer: the features the other layers vary one or two at a time, varied TOGETHER on inputs of one to three tasks -
+    structure (with links pointing backwards in WBS order) x attributes per leaf (remaining work, progress, milestone, earliest
+    start, a start fixed at 09:00 of a later day, no estimate) x one or two resources x calendar x position of the clock (before the
+    project, between the project start and the fixed start, after both; or the scheduler built without a date) x balancing x a dated
+    task of another project as predecessor / successor whose id equals the last member's x start at midnight / 09:00.
+    Quick thins the product (every pair of feature values still occurs); thorough enumerates it completely."""
+    quick = tier == 'quick'
+    for sched in scheds:
+        fwd = sched == 'fwd'
+        for S0 in (MON, MON + H9):
+            S = S0 if fwd else S0 + 21 * DAY
+            menu = [{'estimate': 4}, {'estimate': 12}, {'estimate': 4, 'spent': 1}, {'milestone': True}, {'estimate': 0.5}, {},
+                    {'estimate': 4, 'min_start': S + 2 * DAY}]
+            if fwd:
+                menu.append({'estimate': 2.5, 'start': seams.midnight(S) + DAY + H9})
+            ed = {'start': S + 2 * DAY, 'end': S + 3 * DAY + timedelta(hours=12), 'estimate': 4} if fwd else \
+                {'start': S - 6 * DAY, 'end': S - 5 * DAY, 'estimate': 4}
+            clocks = [S - 30 * DAY, S + timedelta(hours=12), S + DAY + timedelta(hours=12), 'implicit'] if fwd else [S - 30 * DAY, 'implicit']
+            k = 0
+            for par, links in LX_STRUCTS:
+                n = len(par)
+                lv = [i for i in range(n) if is_leaf(par, i)]
+                exts = [None, 'pred', 'succ']
+                for combo in itertools.product(range(len(menu)), repeat=len(lv)):
+                    for rpat in (('A', 'AB') if len(lv) > 1 else ('A',)):
+                        attrs = {i: dict(menu[c], resource='A' if rpat == 'A' else 'AB'[j % 2]) for j, (i, c) in enumerate(zip(lv, combo))}
+                        dflts = (0, 4) if any('estimate' not in attrs[i] and 'milestone' not in attrs[i] for i in lv) else (0,)
+                        for cal in ('none', 'wk58', 'sparse'):
+                            if S0 != MON and cal != 'none':
+                                continue
+                            for clock in clocks:
+                                for bal in (True, False):
+                                    for ext in exts:
+                                        for dflt in dflts:
+                                            k += 1
+                                            if quick and (k * 7) % 11 > 2:
+                                                continue  # 3 of every 11, spread over all loops
+                                            kw = {}
+                                            if ext == 'pred':
+                                                # the outside task carries the id of the LAST member and is waited for by the first
+                                                kw = dict(ext=[(n, dict(ed))], ext_links=[(('e', 0), ('x', 0))])
+                                            elif ext == 'succ':
+                                                kw = dict(ext=[(n, dict(ed))], ext_links=[(('x', n - 1), ('e', 0))])
+                                            implicit = clock == 'implicit'
+                                            yield Scenario(sched, bal, S, mk_tasks(par, attrs), list(links),
+                                                           cals={'A': cal} if cal != 'none' else {}, dflt=dflt,
+                                                           clock=S if implicit else clock, layer='L1i' if implicit else 'LX', **kw)
 
 
 L8_SHAPES = [
